@@ -433,10 +433,28 @@ def _schemas(ctx, py):
         table("filters.run_%s_filter[gyro_sd]" % tag, lambda r=r: r.gyro_sd, gm.states)
         table("filters.run_%s_filter[accel]" % tag, lambda r=r: r.accel, am.states)
         table("filters.run_%s_filter[accel_sd]" % tag, lambda r=r: r.accel_sd, am.states)
+    # tables computed FROM a table keep (a subset of) its stamps bit for bit: label look-up / alignment with the input must work
+    long_traj, _ = SIM.generate_sine_velocity_motion(0.1, 80.0, [55.0, 37.0, 100.0], [3.0, 2.0, 0.0], [2.0, 2.0, 0.2], 30.0)
+    subset = {}
+    for st_ in (2.0, 4.0, 0.7):
+        nm_ = "transform.smooth_state(%g s)" % st_
+        table(nm_, lambda st_=st_: T.smooth_state(long_traj, st_), list(long_traj.columns))
+        subset[nm_] = long_traj.index
+    q_ = np.concatenate([[-1.0], long_traj.index[5:700:7].values, long_traj.index[10:20].values + 0.033, [1e3]])
+    q_in = np.sort(q_[(q_ >= long_traj.index[0]) & (q_ <= long_traj.index[-1])])
+    table("transform.resample_state", lambda: T.resample_state(long_traj, np.sort(q_)), list(long_traj.columns), list(q_in))
+    table("transform.compute_state_difference(tables)", lambda: T.compute_state_difference(long_traj.iloc[::3], long_traj.iloc[20:600]),
+          C["TRAJECTORY_ERROR_COLS"])
+    subset["transform.compute_state_difference(tables)"] = long_traj.index
     for name, make, cols, index, index_name in cases:
         try:
             tab = make()
             bad = []
+            if name in subset:
+                have = set(float(x) for x in subset[name])
+                off = [float(x) for x in tab.index if float(x) not in have]
+                if off or not len(tab.index):
+                    bad.append("%d of %d returned stamps are not stamps of the input table (first: %r)" % (len(off), len(tab.index), off[:1]))
             if list(tab.columns) != list(cols):
                 bad.append("columns %s, documented %s" % (list(tab.columns), list(cols)))
             if index is not None and [float(x) for x in tab.index] != [float(x) for x in index]:
